@@ -201,7 +201,7 @@ _MIS = re.compile(r'=\s*\[(.*?)\]\s*:\s*list nat', re.S)
 
 def run_shard(args):
     pid, k, imports, terms = args
-    path = os.path.join(GEN, 'cases_%s_%d.v' % (pid, k))
+    path = os.path.join(GEN, 'cases_%s_p%d_%d.v' % (pid, os.getpid(), k))   # per process: concurrent runs do not collide
     with open(path, 'w') as f:
         f.write(imports + '\n')
         f.write('Definition cases : list case := [\n')
@@ -325,9 +325,9 @@ def run_property(pid, tier, seed, replay=None):
                 else:
                     mism.extend(k * SHARD + i for i in idx)
         for k in range(len(shards)):
-            for ext in ('.v', '.vo', '.glob'):
+            for ext in ('.v', '.vo', '.vok', '.vos', '.glob'):
                 try:
-                    os.remove(os.path.join(GEN, 'cases_%s_%d%s' % (pid, k, ext)))
+                    os.remove(os.path.join(GEN, 'cases_%s_p%d_%d%s' % (pid, os.getpid(), k, ext)))
                 except OSError:
                     pass
     mism.sort()
